@@ -552,10 +552,11 @@ Section sound.
           split; [assumption | apply env_ok_app_r; assumption].
         * destruct (Huni eq_refl) as [_ <-]. simpl.
           split; [assumption | apply env_ok_app_r; assumption].
-    - (* EForce *) inv_check Hc; simpl; ih_e IH E He va r1 Hva He1; simpl;
-        try (apply wt_opt_inv in Hva as [-> | (w & -> & Hw)]; simpl; [exact I | split; assumption]).
-      all: destruct va; simpl; try (split; assumption); try exact I.
-      all: split; [|assumption]; apply wt_intro;
+    - (* EForce *) inv_check Hc. simpl. ih_e IH E He va r1 Hva He1. simpl.
+      destruct t0.
+      9: { apply wt_opt_inv in Hva as [-> | (w & -> & Hw)]; simpl; [exact I | split; assumption]. }
+      all: destruct va; simpl; try (split; assumption); try exact I;
+        split; [|assumption]; apply wt_intro;
         [ exact (wt_wfv D _ _ Hva)
         | apply subtype_opt_nonopt; [exact (wt_sub D _ _ Hva) | reflexivity]
         | reflexivity ].
